@@ -10,8 +10,9 @@ import (
 // c15Outcome is everything a run of the front end hands on: the diagnostics, or the specification
 // (name, productions, definitions, precedence levels) and the scanner automaton's final-state lists in
 // the order they are printed into the generated lexer (or the automaton's diagnostics).
-func c15Outcome() string {
+func c15Outcome(rejected *bool) string {
 	s, err := Parse("f", nil)
+	*rejected = err != nil
 	if err != nil {
 		return "error: " + verif.ConcretizeString(err.Error())
 	}
@@ -43,13 +44,17 @@ func itoa15(n int) string {
 	return itoa15(n/10) + string(rune('0'+n%10))
 }
 
-// harnessC15Order: one of the fixed openings followed by every sequence of up to specOrdK tokens.  The
+// harnessC15Order: one of the fixed openings followed by every sequence of up to specOrdK tokens
+// (specOrdK2 for the two openings made for this property).  The
 // front end is run once with every Go map iterated in sorted order and once with the iteration order of
 // every Go map that emerge's own code ranges over left to the path (each permutation is explored): the
 // diagnostics, their order, the specification and the final-state lists must be the same.
 func harnessC15Order() {
 	variant := verif.Pick("variant", 7)
-	k := verif.Len("k", 0, specOrdK)
+	k := verif.Len("k", 0, specOrdK2)
+	if variant < 5 {
+		verif.Assume(k <= specOrdK)
+	}
 	toks, _ := parser.VerifPoolTokens(k, variant)
 	tree, _ := parser.VerifRefParse(toks)
 	if tree == nil {
@@ -57,20 +62,22 @@ func harnessC15Order() {
 		return
 	}
 	parser.VerifSetLexer(toks)
-	first := c15Outcome()
+	var rej1, rej2 bool
+	first := c15Outcome(&rej1)
 	parser.VerifSetLexer(toks)
 	verif.FreeMapOrder(true)
-	second := c15Outcome()
+	second := c15Outcome(&rej2)
 	verif.FreeMapOrder(false)
 	if !verif.Symbolic() {
 		// native replay: the Go runtime randomises the order by itself; repeat and compare
 		for i := 0; i < 300 && first == second; i++ {
 			parser.VerifSetLexer(toks)
-			second = c15Outcome()
+			second = c15Outcome(&rej2)
 		}
 	}
 	verif.Reach("compared")
-	if len(first) > 6 && first[:6] == "error:" {
+	verif.Assert(rej1 == rej2, "acceptance depends on the iteration order of a hash map")
+	if rej1 {
 		verif.Reach("rejected")
 	} else {
 		verif.Reach("accepted")
